@@ -55,6 +55,7 @@ LOAD_IMPORTS = {"import pandas": {"pandas": "pandas"}, "from glob import glob": 
 MAIN_IMPORTS = {"import glob": {"glob": "glob"}, "import pandas": {"pandas": "pandas"}, "import numpy": {"numpy": "numpy"}}
 FIT_IMPORTS = {"from scipy.interpolate import RectBivariateSpline": {"RectBivariateSpline": "scipy.interpolate.RectBivariateSpline"},
                "import scipy.interpolate": {"scipy": "scipy"}}
+HELPER_IMPORTS = dict(MAIN_IMPORTS)
 SEP_WS = "\\s+"
 SPLIT_GLUE = "variables = variables.split(',')"
 
@@ -131,6 +132,11 @@ def want_option(sig, file, fn, param, **kw):
         if i[k] != v:
             raise TranslateError(file, fn, "click option `%s`: %s is %r (the translation assumes %r)" % (param, k, i[k], v))
     return i
+
+
+def helper_table(mod, special):
+    """module-level functions other than the translated entry points: candidates for inlining at their call sites"""
+    return {s.name: (s, mod) for s in mod.body if isinstance(s, ast.FunctionDef) and s.name not in special}
 
 
 def main_guard_ok(mod, file, names):
@@ -319,7 +325,9 @@ class CliTr(FunTr):
             if len(a) != 1 or a[0].ty != "str":
                 self.bail(e, "load_data(%s)" % ", ".join(x.ty for x in a))
             return Val(self.bind(B, "loaded", "(load_data %s)" % a[0].term), "table")
-        self.bail(e, "call of `%s`" % q)
+        if q == "dict" and not args and not kwargs and isinstance(e.func, ast.Name):
+            return Val("dict_empty", "dict:series")
+        return self.unknown_call(q, args, kwargs, e, env, B)
 
 
 # ==========================================================================================================
@@ -327,7 +335,8 @@ class CliTr(FunTr):
 # ==========================================================================================================
 
 class LoadTr(CliTr):
-    LABEL_GLUE = re.compile(r"df\.(columns|index) = \[float\((\w+)\) for \2 in df\.\1\]")
+    # `[float(x) for x in df.columns]` or the equivalent `list(map(float, df.columns))` (list / map / float unshadowed)
+    LABEL_GLUE = re.compile(r"df\.(columns|index) = (?:\[float\((\w+)\) for \2 in df\.\1\]|list\(map\(float, df\.\1\)\))")
 
     def __init__(self, file, source):
         super().__init__(file, source)
@@ -364,7 +373,7 @@ class LoadTr(CliTr):
                 self.bail(e, "read_table index_col=%s (expected 0: first column = row labels)" % src_of(ic))
             self.read_kwargs = dict(sep=SEP_WS, index_col=0)
             return Val(self.bind(B, "df", "(read_table %s)" % a[0].term), "table")
-        self.bail(e, "call of `%s`" % q)
+        return self.unknown_call(q, args, kwargs, e, env, B)
 
     def glue(self, s, env):
         m = self.LABEL_GLUE.fullmatch(src_of(s))
@@ -383,6 +392,7 @@ def translate_load_data(mod, file, source, prefix):
     forbid_dynamic(fn, file)
     aliases, body = leading_imports(fn, file, LOAD_IMPORTS)
     tr = LoadTr(file, source)
+    tr.helpers, tr.helper_imports = helper_table(mod, {"load_data", "fit_data", "main"}), dict(LOAD_IMPORTS)
     tr.aliases = aliases
     tr.function_locals = frozenset(assigned_names(body))
     tr.protected = frozenset(["var", "listing", "read_table"])
@@ -418,6 +428,17 @@ class MainTr(CliTr):
             return True
         return False
 
+    def method(self, v, attr, args, kwargs, e, env, B):
+        # `variables.split(',')` used in place (e.g. as the loop iterable): the same glue as the separate statement
+        if v.ty == "rawstr" and attr == "split" and not kwargs and len(args) == 1 \
+                and isinstance(args[0], ast.Constant) and args[0].value == ",":
+            self.split_seen = True
+            if self.discover is None:
+                self.facts.append("%s:%s: `%s` matched literally: the generated function takes the list of names"
+                                  % (self.file, e.lineno, src_of(e)))
+            return Val(v.term, "liststr")
+        return super().method(v, attr, args, kwargs, e, env, B)
+
     def final_expr(self, s, env, B):
         t = src_of(s)
         if t in self.print_glue and "table" in env:
@@ -431,7 +452,7 @@ def translate_extract(source):
     """-> dict(load_data=(text, facts) | TranslateError, main=(text, info) | TranslateError)"""
     mod = parse(source)
     main_guard_ok(mod, EXTRACT, {"load_data", "main"})
-    builtins_unshadowed(mod, EXTRACT, {"sorted", "float", "print"})
+    builtins_unshadowed(mod, EXTRACT, {"sorted", "float", "print", "list", "map", "dict"})
     out = {}
     try:
         out["load_data"] = translate_load_data(mod, EXTRACT, source, "gx")
@@ -460,6 +481,7 @@ def _extract_main(mod, source):
     aliases, body = leading_imports(fn, EXTRACT, MAIN_IMPORTS)
     tr = MainTr(EXTRACT, source, {"load_data"},
                 {"print(table.to_string(header=not hide_header))"})
+    tr.helpers, tr.helper_imports = helper_table(mod, {"load_data", "fit_data", "main"}), dict(HELPER_IMPORTS)
     tr.aliases = aliases
     tr.function_locals = frozenset(assigned_names(body))
     tr.protected = frozenset(["load_data", "temperature", "pressure", "hide_header"])
@@ -533,7 +555,7 @@ def translate_geotherm(source):
     """-> dict(load_data=(text, facts) | TranslateError, main=(text, consts, info) | TranslateError)"""
     mod = parse(source)
     main_guard_ok(mod, GEOTHERM, {"load_data", "fit_data", "main"})
-    builtins_unshadowed(mod, GEOTHERM, {"sorted", "float", "print"})
+    builtins_unshadowed(mod, GEOTHERM, {"sorted", "float", "print", "list", "map", "dict"})
     out = {}
     try:
         out["load_data"] = translate_load_data(mod, GEOTHERM, source, "gg")
@@ -555,9 +577,10 @@ def _geotherm_main(mod, source):
     forbid_dynamic(ff, GEOTHERM)
     al, body = leading_imports(ff, GEOTHERM, FIT_IMPORTS)
     ft = FitTr(GEOTHERM, source)
+    ft.helpers, ft.helper_imports = helper_table(mod, {"load_data", "fit_data", "main"}), dict(HELPER_IMPORTS)
     ft.aliases = al
     ft.function_locals = frozenset(assigned_names(body))
-    ft.protected = frozenset(["spline"])
+    ft.protected = frozenset()
     fterm = ft.block(body, {"df": Val("df", "table")}, lambda env: ft.bail(ff, "fit_data can end without `return`"))
     fit_txt = ("  (* %s: fit_data(df) - the arguments RectBivariateSpline is built from *)\n"
                "  Definition gg_fit_data (df : table) : option spline_obj :=\n    %s.\n" % (GEOTHERM, fterm.replace("\n", "\n    ")))
@@ -578,9 +601,10 @@ def _geotherm_main(mod, source):
     aliases, body = leading_imports(fn, GEOTHERM, MAIN_IMPORTS)
     tr = GeoMainTr(GEOTHERM, source, {"load_data", "fit_data"},
                    {"print(table.to_string(header=not hide_header, index=False))"})
+    tr.helpers, tr.helper_imports = helper_table(mod, {"load_data", "fit_data", "main"}), dict(HELPER_IMPORTS)
     tr.aliases = aliases
     tr.function_locals = frozenset(assigned_names(body))
-    tr.protected = frozenset(["load_data", "fit_data", "t_col", "p_col", "geotherm", "hide_header", "spline", "geo"])
+    tr.protected = frozenset(["load_data", "fit_data", "t_col", "p_col", "geotherm", "hide_header"])
     env = {"variables": Val("variables", "rawstr"), "t_col": Val("t_col", "str"), "p_col": Val("p_col", "str"),
            "geotherm": Val("geotherm", "geopath"), "hide_header": Val("hide_header", "flag")}
     term = tr.block(body, env, lambda e2: tr.bail(fn, "main can end without printing the table"))
